@@ -551,6 +551,9 @@ Definition ThreadShape (run mid : N) (cs : list ck) (r : N) : Prop :=
 
 Definition all_ok : ck -> bool := fun _ => true.
 
+(* what failing appends do to the log: a session frame is always written, a thread frame iff its append succeeds *)
+Definition keeps (aok : ck -> bool) (e : ev) : bool := match e with ES _ _ _ => true | EC k => aok k end.
+
 (* the activity really started a run (for a post: both appends of thread_post_message succeeded) *)
 Definition act_started (aok : ck -> bool) (a : act) : bool :=
   match a with
